@@ -7,7 +7,7 @@ from contlib import ContCheck, all_classes
 class C04(ContCheck):
     id = 'C04'
     nontrivial_rule = ('a history is non-trivial when at least one insert succeeded; keys from a 4-letter alphabet so '
-                       'duplicates, minimum, maximum and absent probes are common; distinct = distinct case lines')
+                       'duplicates, minimum, maximum and absent probes are common; distinct = distinct case lines; further strata: own-object arguments (remove/find/contains of find(k)), second use of a copy (`fork`, `swap`), vectors of 31..257 (thorough ..1025) elements: distinct keys in ascending/descending/shuffled build order with a duplicate, a new neighbour key and probes at the first/second/quarter/middle/last positions and absent keys below/above, and vectors of n elements over n/4 keys')
     assumptions = ['elements are non-empty spif_str objects compared by spif_str_cmp, never NULL',
                    'results are compared by key; WHICH of several equal-key elements find/remove returns is left to the class '
                    '(identity is checked for membership by the multiset oracle)',
@@ -24,7 +24,8 @@ class C04(ContCheck):
               'to_array are ascending and hold exactly the inserted-and-not-removed objects and that find/remove hand back live '
               'objects with the probe\'s key. Pointer-level models (binary search, ordered scans) and refinement proofs are '
               'stage 2; memory safety is decided by the sanitizer run only.'
-              " Stage 2 (Properties/C04_array.v, C04_linked_list.v, C04_dlinked_list.v): the pointer-level models of the three classes' vector methods refine the sorted multiset for every history: never a Fault, chain/array stays ascending, contents = inserted minus removed with identities, binary search (array) correct and in bounds, find/remove return stored elements; outputs agree with the ideal multiset up to the class's documented choice among equal keys (compared by key)."),
+              " Stage 2 (Properties/C04_array.v, C04_linked_list.v, C04_dlinked_list.v): the pointer-level models of the three classes' vector methods refine the sorted multiset for every history: never a Fault, chain/array stays ascending, contents = inserted minus removed with identities, binary search (array) correct and in bounds, find/remove return stored elements; outputs agree with the ideal multiset up to the class's documented choice among equal keys (compared by key)."
+              " Strengthened after the round-2 seeds: sized vectors (31..33, 63..65, 127..129, 255..257; thorough ..1025) built with quiet steps, then duplicates / neighbours / probes at every boundary position (a search strategy that changes with the length is exercised on both sides of every power of two), many-equal-keys vectors, own-object arguments (remove/find/contains of the vector's own element) and `fork` (dup, then keep using the copy while the original is read back; the oracle keeps one multiset per container). Harness/driver-level compositions of the existing spec operations; op datatypes and theorems unchanged. Vectors above 300 elements are compared with the ideal multiset (and the oracle) only."),
         design_ref='DESIGN.md section 7, C04')
 
     def oracle(self, case, iout):
@@ -32,17 +33,27 @@ class C04(ContCheck):
 
     def gen(self, tier, rng):
         cases = []
-        nrand = 6000 if tier == 'quick' else 100000
+        quick = tier == 'quick'
+        nrand = 6000 if quick else 100000
         for _ in range(nrand):
             cases += all_classes('vector', contlib.vector_history(rng))
         for _ in range(nrand // 10):
             cases += all_classes('vector', contlib.vector_history(rng, maxops=40, keys=['a', 'b', 'c', 'd', 'e', 'f', 'g']))
-        depth = 5 if tier == 'quick' else 7
+        # keys that are prefixes of each other (a, aa, ab, b, ba, aaa)
+        for _ in range(nrand // 10):
+            cases += all_classes('vector', contlib.vector_history(rng, keys=contlib.KEYS_PREFIX))
+        depth = 5 if quick else 7
         ex = contlib.vector_exhaustive(depth)
-        ex3 = contlib.vector_exhaustive(4 if tier == 'quick' else 5, keys=('a', 'b', 'c'))
-        self.exhaustive_note = ('all %d sequences of %d operations insert/remove/find over keys a,b and all %d over a,b,c, on three '
-                                'classes' % (len(ex), depth, len(ex3)))
-        for ops in ex + ex3:
+        ex3 = contlib.vector_exhaustive(4 if quick else 5, keys=('a', 'b', 'c'))
+        ex2 = contlib.vector_exhaustive2(3 if quick else 4)
+        sized = contlib.vector_sized(contlib.SIZES_QUICK if quick else contlib.SIZES_THOROUGH, rng)
+        self.exhaustive_note = ('all %d sequences of %d operations insert/remove/find over keys a,b, all %d over a,b,c and all %d sequences '
+                                'of %d operations of the composite alphabet %s (own-object arguments, fork = dup and use the copy, swap), on '
+                                'three classes; %d histories on vectors of %s elements (distinct keys in three build orders with duplicates, '
+                                'neighbours and absent keys at every boundary position; many equal keys)'
+                                % (len(ex), depth, len(ex3), len(ex2), 3 if quick else 4, contlib.VECTOR_SYMBOLS2, len(sized),
+                                   '31..257' if quick else '31..1025'))
+        for ops in ex + ex3 + ex2 + sized:
             cases += all_classes('vector', ops)
         return cases
 
